@@ -96,3 +96,49 @@ Fixpoint live_pass (n ahead : nat) (diffs : list Z) (s : bst) : list (option Z) 
 Definition display_pass (ahead : nat) (diffs : list Z) (s : bst) : list (option Z) :=
   live_pass (length diffs) ahead diffs
     {| in_rows := in_rows s; first_row := first_row s; store := store s; out_row := 0; in_pass := true |}.
+
+(* ---- multi-scan (progressive / multi-scan sequential) coefficient arrays, jdcoefct.c consume_data /
+   decompress_data, jdapistd.c.  nscans scans of nrows iMCU rows each; ver[r] = number of scans whose
+   data iMCU row r of the virtual arrays holds (each scan adds to every row, in row order). *)
+Local Close Scope Z_scope.
+Record pst := {
+  p_scan : nat;           (* cinfo->input_scan_number, 1-based *)
+  p_row : nat;            (* cinfo->input_iMCU_row *)
+  p_ver : list nat;
+  p_eoi : bool            (* inputctl->eoi_reached *)
+}.
+
+Definition pinit (nrows : nat) : pst := {| p_scan := 1; p_row := 0; p_ver := repeat 0 nrows; p_eoi := false |}.
+
+Fixpoint setn (i v : nat) (l : list nat) : list nat :=
+  match l with [] => [] | x :: t => match i with O => v :: t | S j => x :: setn j v t end end.
+
+(* one consume_input call that decodes an iMCU row (marker-only calls change nothing here) *)
+Definition pconsume (nscans nrows : nat) (s : pst) : pst :=
+  if p_eoi s then s
+  else
+    let ver := setn (p_row s) (p_scan s) (p_ver s) in
+    if Nat.ltb (S (p_row s)) nrows then {| p_scan := p_scan s; p_row := S (p_row s); p_ver := ver; p_eoi := false |}
+    else if Nat.ltb (p_scan s) nscans then {| p_scan := S (p_scan s); p_row := 0; p_ver := ver; p_eoi := false |}   (* next SOS *)
+    else {| p_scan := p_scan s; p_row := S (p_row s); p_ver := ver; p_eoi := true |}.                              (* EOI *)
+
+(* decompress_data: force input while it is behind the scan N being displayed, or in it and not
+   `ahead` rows ahead of output row r *)
+Fixpoint pforce (fuel ahead nscans nrows N r : nat) (s : pst) : pst :=
+  match fuel with
+  | O => s
+  | S f =>
+    if p_eoi s then s
+    else if Nat.ltb (p_scan s) N || (Nat.eqb (p_scan s) N && Nat.ltb (p_row s) (r + ahead))
+         then pforce f ahead nscans nrows N r (pconsume nscans nrows s)
+         else s
+  end.
+
+Definition prender (ahead nscans nrows N r : nat) (s : pst) : nat * pst :=
+  let s1 := pforce (S (nscans * nrows)) ahead nscans nrows N r s in (nth r (p_ver s1) 0, s1).
+
+(* any application schedule *)
+Inductive pop := PConsume | PRender (N r : nat).
+Definition pstep (ahead nscans nrows : nat) (s : pst) (o : pop) : pst :=
+  match o with PConsume => pconsume nscans nrows s | PRender N r => snd (prender ahead nscans nrows N r s) end.
+Definition prun (ahead nscans nrows : nat) (ops : list pop) : pst := fold_left (pstep ahead nscans nrows) ops (pinit nrows).
